@@ -143,6 +143,28 @@ def single(sel: List[int]) -> bool:
         note("region")
         return True
     note("oracle")
+    return _laws(t)
+
+
+def nested(sel: List[int]) -> bool:
+    """Every constructor directly inside every constructor (depth 2; the deep child has at most one member, leaves from a
+    pool of 3): the per-term laws again - a law can fail only for a particular nesting (e.g. a union inside a union).
+
+    pre: len(sel) == SEL_LEN and fixed(sel)
+    post: _
+    """
+    INNER[0] = 3
+    try:
+        t = mk(sel, Cur(), 2, 2, root=False)
+    except OutOfRange:
+        return True
+    finally:
+        INNER[0] = 8
+    note("oracle")
+    return _laws(t)
+
+
+def _laws(t: AbstractType) -> bool:
     d = t.to_dict()
     t2 = AbstractType.from_dict(d)
     if not (t2 == t and t == t2):  # round trip yields an equal value
